@@ -43,6 +43,10 @@ func calculateNextQuota(
 	total := float64(getLimitQuota(upstreamTotal.LimitItemDetail, flowControlType))
 	allocated := float64(getLimitQuota(upstreamUsed.LimitItemDetail, flowControlType))
 	remaining := total - allocated
+	if remaining < 0 {
+		// more is allocated than the limit allows (e.g. the limit was lowered): nothing is left to hand out
+		remaining = 0
+	}
 
 	var next, burst float64
 
@@ -144,16 +148,21 @@ func calculateNextQuota(
 		}
 	}
 
-	// The minimum limit quota is 1
-	if next < 1 {
-		next = 1
-	}
 	if next < total*MinimumQuotaPercent {
 		next = total * MinimumQuotaPercent
 	}
 
+	// a quota never grows by more than what is left, and never exceeds the global limit
 	if next-current > remaining {
 		next = current + remaining
+	}
+	if next > total {
+		next = total
+	}
+
+	// The minimum limit quota is 1: applied last, so that no clamp can push an answer below it
+	if next < 1 {
+		next = 1
 	}
 
 	next = math.Ceil(next)
